@@ -11,6 +11,7 @@ from sa.index import own_nodes
 from sa.report import Ctx
 
 from .common import generic_sweeps
+from .sat_common import _enclosing_block as _blk_of
 
 from .graph_common import neighbor_loops, node_derived_sets, node_universe_filtered, symmetrised_before_use
 from .sat_common import _enclosing_block
@@ -264,6 +265,35 @@ def run(ctx: Ctx):
     same_block = bool(adds) and bool(cnt) and _enclosing_block(pr.node, cfg.stmt_node_containing(adds[0]).ast) is _enclosing_block(pr.node, cnt[0])
     ctx.ob("C15-O4", "R16 PAIRED-EFFECTS", pr, "in-links and out-degree count every listed edge the same number of times (list + append next to the counter increment)", multiset and per_listing and same_block, "a de-duplicated in-link set with a per-listing out-degree (or the reverse) makes a node hand out only part of its score: mass leaks", node=adds[0] if adds else pr.node)
     ctx.ob("C15-O4", "R18 table", pr, "stopping rule aggregates the change |new - old| of every node of the sweep (sum or maximum), starting from zero in each iteration", ("max_diff += abs(new_scores[v] - scores[v])" in t or "max_diff = max(max_diff, abs(new_scores[v] - scores[v]))" in t) and "max_diff = 0.0" in t, "", node=pr.node)
+    # ---- found missing by the statement-mutation probe
+    # pagerank: the sweep's result becomes the current vector before the convergence test, and that vector is published
+    pcfg = cfg_of(pr.node)
+    swaps = [n for n in own_nodes(pr.node) if isinstance(n, ast.Assign) and ast.unparse(n) == "scores = new_scores"]
+    okw = len(swaps) == 1
+    if okw:
+        sn = pcfg.node_of(swaps[0])
+        okw = sn.loop is not None and sn.loop.kind == "for" and "max_iter" in ast.unparse(sn.loop.ast.iter) and all(pcfg.dominates(sn, s_.node) for s_ in result_sites(pr) if s_.node.loop is sn.loop)
+    ctx.ob("C15-O4", "R16 PAIRED-EFFECTS", pr, "every sweep ends by making the new score vector the current one, before the convergence return", bool(okw), "without the hand-over every sweep starts from the uniform vector again: the loop computes the first iterate max_iter times and publishes the start vector", node=swaps[0] if swaps else pr.node)
+    # louvain: the degenerate answers are given for the degenerate inputs only, and the weighted graph the modularity is
+    # computed on holds every undirected edge once with both degrees counted
+    lcfg = cfg_of(lou.node)
+    lgv = GuardView(lcfg)
+    for s_ in result_sites(lou):
+        sol = ast.unparse(s_.arg("solution"))
+        at = lgv.guard_atoms(s_.node, stable_only=False)
+        if sol == "[{node_list[0]}]":
+            ctx.ob("C15-O3", "R14 GATE", lou, "the one-community answer is given exactly for a one-node graph", atom_of("n == 1") in at, f"{sorted(at)}", node=s_.call)
+        elif sol == "[{v} for v in node_list]":
+            ctx.ob("C15-O3", "R14 GATE", lou, "the all-singletons answer with modularity 0 is given exactly for a graph without edges", atom_of("total_weight == 0") in at, f"{sorted(at)}", node=s_.call)
+    degs = [n for n in own_nodes(lou.node) if isinstance(n, ast.AugAssign) and ast.unparse(n.target) in ("degree[v]", "degree[w]")]
+    okg = len(degs) == 2
+    if okg:
+        blk = _blk_of(lou.node, degs[0])
+        txt = [ast.unparse(x) for x in blk]
+        okg = _blk_of(lou.node, degs[1]) is blk and {"adj[v][w] = 1.0", "adj[w][v] = 1.0", "degree[v] += 1.0", "degree[w] += 1.0"} <= set(txt)
+        at = {a for a in lgv.guard_atoms(lcfg.node_of(degs[0]), stable_only=False, after_loops=False) if not a.startswith("IN-LOOP")}
+        okg = okg and {atom_of("w not in adj[v]"), atom_of("w in node_set"), atom_of("w != v")} <= at and not (at - {atom_of("w not in adj[v]"), atom_of("w in node_set"), atom_of("w != v"), atom_of("n != 0"), atom_of("n != 1")})
+    ctx.ob("C15-O3", "R16 PAIRED-EFFECTS", lou, "an undirected edge enters the weighted graph once: both adjacency entries and both degrees in one block, for neighbours inside the node set, other than the node itself, not yet recorded", bool(okg), "the reported modularity is computed from these degrees and weights: an edge counted twice, or with one degree missing, gives a modularity that is not the partition's", node=degs[0] if degs else lou.node)
     generic_sweeps(ctx)
 
 
@@ -342,6 +372,21 @@ def _t_louvain_null_scale(tree):
     M.replace_expr(g, lambda e: M.src_is(e, "resolution * (comm_deg / (2 * total_weight)) ** 2"), M.expr("null_scale * comm_deg ** 2 / (2 * total_weight)"))
 
 
+def _v_louvain_flag_never_cleared(tree):
+    g = M.find_func(tree, "louvain")
+    M.replace_stmt(g, lambda s: isinstance(s, ast.Assign) and M.src_is(s, "improved = False"), [])
+
+
+def _v_pagerank_no_handover(tree):
+    g = M.find_func(tree, "pagerank")
+    M.replace_stmt(g, lambda s: isinstance(s, ast.Assign) and M.src_is(s, "scores = new_scores"), [])
+
+
+def _v_louvain_one_degree(tree):
+    g = M.find_func(tree, "louvain")
+    M.replace_stmt(g, lambda s: isinstance(s, ast.AugAssign) and M.src_is(s.target, "degree[w]"), [])
+
+
 def _v_louvain_degree(tree):
     g = M.find_func(tree, "louvain")
     M.replace_stmt(g, lambda s: M.src_is(s, "comm_degree[best_comm] += v_degree"), [])
@@ -380,6 +425,9 @@ VARIANTS = [
     M.Variant("k-core neighbour sometimes left out of every bucket", KC, _v_kcore_no_remove, "C15-O2"),
     M.Variant("kcore(k) uses a strict threshold", KC, _v_kcore_gt, "C15-O2"),
     M.Variant("louvain forgets to add the degree to the new community", CM, _v_louvain_degree, "C15-O3"),
+    M.Variant("louvain never clears its `improved` flag: the sweep loop cannot end", CM, _v_louvain_flag_never_cleared, "C15-G2"),
+    M.Variant("pagerank does not hand the new vector over to the next sweep", PR, _v_pagerank_no_handover, "C15-O4"),
+    M.Variant("louvain counts an edge in one endpoint's degree only", CM, _v_louvain_one_degree, "C15-O3"),
     M.Variant("articulation_points answers 'all internal nodes' when there are n - 1 edges (seed C15-G)", "solvor/articulation.py", _v_ap_tree_shortcut, "C15-O5"),
     M.Variant("pagerank drops self links like the undirected modules do (seed C15-H)", "solvor/pagerank.py", _v_pagerank_drops_self_links, "C15-O4"),
     M.Variant("louvain squares the hoisted resolution factor in the final modularity (seed C15-D)", CM, _v_louvain_null_scale, "C15-O3"),
